@@ -10,20 +10,28 @@
      - an "assign" stores a complete (non-null) value and belongs to a builder in flight. *)
 EXTENDS Integers, Sequences, FiniteSets, Json, IOUtils, TLC
 TraceLog == ndJsonDeserialize(IOEnv.TRACE_FILE)
-VARIABLES l, assigned, pending, usedvals, ok
+VARIABLES l, assigned, pending, usedvals, nbuilt, ok
 Key(e) == <<e.cache, e.obj>>
-Init == l = 1 /\ assigned = {} /\ pending = {} /\ usedvals = {} /\ ok = TRUE
+Init == l = 1 /\ assigned = {} /\ pending = {} /\ usedvals = {} /\ nbuilt = {} /\ ok = TRUE
 Next == /\ l <= Len(TraceLog)
         /\ LET e == TraceLog[l] IN
            /\ assigned' = IF e.ev = "assign" THEN assigned \cup {<<Key(e), e.value>>} ELSE assigned
            /\ pending' = IF e.ev = "check" /\ e.hit = 0 THEN pending \cup {<<Key(e), e.thread>>}
                          ELSE IF e.ev = "assign" THEN pending \ {<<Key(e), e.thread>>} ELSE pending
            /\ usedvals' = IF e.ev = "use" THEN usedvals \cup {<<Key(e), e.value>>} ELSE usedvals
+           /\ nbuilt' = IF e.ev = "assign" THEN nbuilt \cup {<<Key(e), l>>} ELSE nbuilt        \* one entry per completed build
            /\ ok' = (ok /\ CASE e.ev = "check"  -> (e.hit = 1) => (\E a \in assigned : a[1] = Key(e)) \/ (\E p \in pending : p[1] = Key(e))
                              [] e.ev = "assign" -> e.value # 0 /\ <<Key(e), e.thread>> \in pending
                              [] e.ev = "use"    -> e.value # 0)
         /\ l' = l + 1
 AllOK == ok
-(* when the log is complete: every value a use returned was assigned to that cache by some thread *)
-UsesExplained == (l = Len(TraceLog) + 1) => usedvals \subseteq assigned
+(* when the log is complete: the values seen for a cache (returned by a use, or found in the attribute by an "assign" trace point)
+   are objects built for THAT cache: there are at most as many distinct ones as completed builds of it.
+   (The "assign" trace point reads the attribute AFTER the store, so when two builders race the first one may log the second one's
+   object while a third thread has already used the first one's: demanding usedvals \subseteq assigned - the first version of this
+   property - raised a false alarm once in a 71 000-event trace, DESIGN 9.  A use of another cache's object, a half-built or a
+   None value still breaks the count or the non-null clause.) *)
+KeysSeen == {p[1] : p \in usedvals \cup assigned}
+UsesExplained == (l = Len(TraceLog) + 1) =>
+                    \A k \in KeysSeen : Cardinality({p[2] : p \in {q \in usedvals \cup assigned : q[1] = k}}) <= Cardinality({b \in nbuilt : b[1] = k})
 =============================================================================
